@@ -111,7 +111,8 @@ class C13(Prop):
     def gens_random(self, tier, rnd):
         gens = []
         for n in range(500 if tier == "quick" else 10000):
-            gens.append({"kind": "hostile", "seed": rnd.getrandbits(30), "indent": rnd.choice([None, 0, 2, 4])})
+            gens.append({"kind": "hostile", "seed": rnd.getrandbits(30), "indent": rnd.choice([None, 0, 2, 4]),
+                         "edit_head": rnd.choice([0, 0, 1, 2, 3])})
         for n in range(300 if tier == "quick" else 6000):
             segs = []
             for _ in range(rnd.randint(1, 9)):
@@ -153,6 +154,14 @@ class C13(Prop):
                 d = H.HTMLDependency(name, "1.0", **kw)
             else:
                 d = make_dep(H, rnd)
+            if g.get("edit_head"):
+                # the dependency's public head field changed after construction: what is serialised is the dependency as it is
+                if g["edit_head"] == 1:
+                    d.head = H.TagList(H.tags.meta(name="late", content="x"), "late text")
+                elif g["edit_head"] == 2 and d.head is not None:
+                    d.head.append(H.tags.link(rel="late", href="l"))
+                else:
+                    d.head = None
             text = d.serialize_to_script_json(indent=g["indent"]).get_html_string()
             equal, head_same = False, False
             try:
@@ -251,6 +260,10 @@ class C13(Prop):
             try:
                 H.html_dependency_render_mode = "json"
                 s = str(x)
+                if g["seed"] % 2:
+                    # the same tree (and an equal, separately built one) written in json mode again: every rendering is complete
+                    s2, s3 = str(x), repr(x)
+                    s = s3 if g["seed"] % 4 == 1 else s2
             finally:
                 H.html_dependency_render_mode = old
             direct = x.render()
